@@ -117,6 +117,9 @@ def main(argv=None):
         incon.append("%d shard(s) stopped early after repeated wall-clock watchdog timeouts" % ctx.events["shard-stopped-early"])
 
     wall = time.time() - t0
+    if not a.no_evidence and not a.replay:
+        # evidence first: a closed stdout (| head) must not lose it
+        evidence.write(mod, ctx, tier, seed, wall, reach_seen, known_hit, unlisted, incon, nshards)
     print("[%s] tier=%s seed=%d shards=%d evaluations=%d distinct_nontrivial=%d wall=%.1fs" % (
         prop, tier, seed, nshards, ctx.evaluations, len(ctx.sigs), wall))
     ev = ", ".join("%s=%d" % kv for kv in sorted(ctx.events.items()))
@@ -149,9 +152,6 @@ def main(argv=None):
             if w.get("detail") is not None:
                 print("    detail: %s" % (json.dumps(w["detail"], default=repr)[:600]))
             print("VIOLATION property=%s replay=%s" % (prop, path))
-
-    if not a.no_evidence and not a.replay:
-        evidence.write(mod, ctx, tier, seed, wall, reach_seen, known_hit, unlisted, incon, nshards)
 
     if unlisted:
         return 1
